@@ -212,14 +212,26 @@ impl<'t> Gen<'t> {
     }
 
     fn args(&mut self, s: &Scope, f: usize) -> Vec<Arg> {
+        self.args_nested(s, f, 0)
+    }
+
+    fn args_nested(&mut self, s: &Scope, f: usize, depth: u32) -> Vec<Arg> {
         let n = self.funcs[f].params.len();
-        (0..n)
+        let mut args: Vec<Arg> = (0..n)
             .map(|_| match self.t.draw(3) {
                 0 => Arg::Lit(self.lit()),
                 1 => Arg::Int(self.t.draw(100) as i64 - 20),
                 _ => Arg::Var(self.scalar(s)),
             })
-            .collect()
+            .collect();
+        // the last argument may itself be a call (I/O while the arguments of
+        // another call are being evaluated)
+        if depth < 2 && self.t.chance(1, 4) {
+            let g = self.t.draw(self.funcs.len() as u32) as usize;
+            let inner = self.args_nested(s, g, depth + 1);
+            *args.last_mut().unwrap() = Arg::Call(g, inner);
+        }
+        args
     }
 
     fn cond(&mut self, s: &Scope) -> Cond {
@@ -449,10 +461,17 @@ pub fn gen_input(t: &mut Tape) -> Vec<u8> {
                 }
             }
             _ => {
-                let len = 8190 + t.draw(600) as usize;
+                // longer than a power-of-two buffer somebody might use:
+                // mostly just over 8 KiB (the interpreter's read buffer),
+                // sometimes over 16, 32, 64 or 128 KiB
+                let base = [8190usize, 8190, 8190, 16380, 32760, 65530, 65530, 131060]
+                    [t.draw(8) as usize];
+                let len = base + t.draw(600) as usize;
                 for k in 0..len {
                     out.push(b'A' + ((k + i) % 26) as u8);
                 }
+                // a multi-byte character right at the end of the long line
+                out.extend_from_slice("é".as_bytes());
             }
         }
         if i + 1 < n || !t.chance(1, 4) {
